@@ -1260,9 +1260,15 @@ def _run_allclose(
             )
 
         if _is_floating_dtype(expected_arr) or _is_floating_dtype(got_arr):
+            # Only align floating widths; never cast a floating model output to an
+            # integer/bool reference dtype (that would truncate 1.9 to 1 and hide
+            # the mismatch).
+            got_cmp = got_arr
+            if _is_floating_dtype(expected_arr) and _is_floating_dtype(got_arr):
+                got_cmp = got_arr.astype(expected_arr.dtype, copy=False)
             if not np.allclose(
                 expected_arr,
-                got_arr.astype(expected_arr.dtype, copy=False),
+                got_cmp,
                 rtol=rtol,
                 atol=atol,
                 equal_nan=True,
@@ -1274,9 +1280,9 @@ def _run_allclose(
                     f"Output {idx} mismatch (max abs diff {max_diff}, rtol={rtol}, atol={atol})",
                 )
         else:
-            if not np.array_equal(
-                expected_arr, got_arr.astype(expected_arr.dtype, copy=False)
-            ):
+            # Value comparison across integer widths; no cast (a cast to bool or to a
+            # narrower integer would map different values onto equal ones).
+            if not np.array_equal(expected_arr, got_arr):
                 return (False, f"Output {idx} mismatch (non-floating tensors differ)")
 
     return True, "Outputs match within tolerance."
